@@ -527,13 +527,55 @@ def concretize(arr):
     return BArr(a, arr.dtype)
 
 
+_COMM = None
+_CANON_MEMO = {}
+
+
+def canon_str(t):
+    """Printer that is canonical modulo the argument order of commutative operators (z3's simplifier orders them by
+    ast id, which depends on creation order, so sexpr() is not a stable key)."""
+    global _COMM
+    if _COMM is None:
+        _COMM = {z3.Z3_OP_AND, z3.Z3_OP_OR, z3.Z3_OP_ADD, z3.Z3_OP_MUL, z3.Z3_OP_EQ, z3.Z3_OP_DISTINCT, z3.Z3_OP_IFF}
+    memo = _CANON_MEMO
+    if len(memo) > 200000:
+        memo.clear()
+
+    def go(e):
+        k = e.get_id()
+        hit = memo.get(k)
+        if hit is not None and hit[0].eq(e):
+            return hit[1]
+        if z3.is_quantifier(e):
+            r = 'Q(' + go(e.body()) + ')'
+        elif z3.is_var(e):
+            r = 'v%d' % z3.get_var_index(e)
+        elif z3.is_app(e):
+            n = e.num_args()
+            if n == 0:
+                r = str(e)
+            else:
+                args = [go(c) for c in e.children()]
+                if e.decl().kind() in _COMM:
+                    args.sort()
+                r = '(' + e.decl().name() + ' ' + ' '.join(args) + ')'
+        else:
+            r = e.sexpr()
+        memo[k] = (e, r)
+        return r
+    return go(t)
+
+
 def canon_key(x):
     """Structural key of a value (for hash-consing deterministic library results)."""
     x = N(x) if T.is_scalar(x) else x
     if isinstance(x, T.Cx):
         return ('cx', canon_key(x.re), canon_key(x.im))
     if is_z3(x):
-        return ('t', x.sexpr())
+        x = T.resolve(x)
+        if not is_z3(x):
+            return ('p', repr(x))
+        return ('t', canon_str(x))
     if isinstance(x, BArr):
         return ('B', x.dtype, x.shape, tuple(canon_key(e) for e in x.a.reshape(-1).tolist()))
     if isinstance(x, CArr):
